@@ -716,7 +716,7 @@ impl SideExt for Side {
 }
 
 const RULE_SCHED: &str = "two real Tcbs (active/passive or simultaneous open, MTU 100..65535, ISNs uniform and dense near 0/2^31/2^32), random interleaving of writes (also after close), reads, 5/150 ms ticks, deliver-any/duplicate/drop, close by either/both sides in any state with data queued or in flight, in 1/6 of the cases old duplicate SYNs with a foreign ISN, in 1/12 an abort; then the fair close phase (both applications close in 4/5 of the cases; deliver all until quiet, advance one RTO, repeat; then 2*MSL+RTO of quiet time); every op's result, the full TCB snapshot and the transition log are compared with the Lean model; non-trivial = at least one close call succeeded; distinct = hash of the op lines";
-const RULE_ENUM: &str = "stateless DFS over ALL schedules of: deliver any in-flight segment, drop it, deliver it without consuming it (duplicate), close A, close B; after every action both sides emit; when nothing is in flight the applications close, then RTO ticks fire; bounded drops/dups; 4 variants (active/passive | simultaneous) x (no data | 3 bytes queued before the handshake and 2 the other way); each schedule ends with the fair close phase and all oracles; every k-th schedule is printed and compared with the Lean model";
+const RULE_ENUM: &str = "action space: deliver any in-flight segment, drop it, deliver it without consuming it (duplicate), close A, close B; after every action both sides emit; when nothing is in flight the applications close, then RTO ticks fire. Exhaustive part (stateless DFS over ALL schedules, no data: SYN / SYN-ACK / ACK / FIN and their ACKs): active/passive open with <= drops / <= dups, simultaneous open with <= sim_drops / <= sim_dups. Sampled part: the same action space with <= 2 drops, <= 2 dups and random choices, in four variants (active/passive | simultaneous) x (no data | 3 bytes queued before the handshake and 2 the other way). Each schedule ends with the fair close phase and all oracles; every k-th schedule is printed and compared with the Lean model";
 const RULE_EDGES: &str = "every entry of the RFC 9293 edge table (10x10 unlabelled, 20 events x 10x10 labelled) of the harness' Rust copy, answered by the Lean table of Spec/Rfc9293.lean through the driver";
 
 // ---------------------------------------------------------------------------------------------
@@ -740,7 +740,7 @@ struct EnumCfg {
 
 /// run one schedule following `path` (then always choice 0); returns (choice, alternatives) per
 /// decision point
-fn enum_schedule(cfg: &EnumCfg, path: &[usize], out: &mut Out) -> Vec<(usize, usize)> {
+fn enum_schedule(cfg: &EnumCfg, path: &[usize], mut random: Option<&mut Rng>, out: &mut Out) -> Vec<(usize, usize)> {
     let mut ex = Exec::new(Oracles { prefix: true, c17: true });
     ex.c03 = Some(C03State::default());
     let mut net = Net { pending: vec![] };
@@ -802,7 +802,10 @@ fn enum_schedule(cfg: &EnumCfg, path: &[usize], out: &mut Out) -> Vec<(usize, us
             }
             break;
         }
-        let c = if taken.len() < path.len() { path[taken.len()] } else { 0 };
+        let c = match random.as_mut() {
+            Some(r) => r.below(acts.len() as u64) as usize,
+            None => if taken.len() < path.len() { path[taken.len()] } else { 0 },
+        };
         let c = c.min(acts.len() - 1);
         taken.push((c, acts.len()));
         match acts[c] {
@@ -847,23 +850,33 @@ fn describe_short(ex: &Exec, x: SideId) -> String {
 }
 
 fn run_enum(args: &Args, out: &mut Out) {
-    let drops: u32 = args.extra.get("drops").and_then(|s| s.parse().ok()).unwrap_or(1);
-    let dups: u32 = args.extra.get("dups").and_then(|s| s.parse().ok()).unwrap_or(1);
-    let ticks: u32 = args.extra.get("ticks").and_then(|s| s.parse().ok()).unwrap_or(2);
-    let limit: u64 = args.extra.get("limit").and_then(|s| s.parse().ok()).unwrap_or(200_000);
-    let print_every: u64 = args.extra.get("print_every").and_then(|s| s.parse().ok()).unwrap_or(50);
+    let get = |k: &str, d: u64| -> u64 { args.extra.get(k).and_then(|s| s.parse().ok()).unwrap_or(d) };
+    // exhaustive part: the handshake and the two closes without data (SYN / SYN-ACK / ACK / FIN and
+    // their ACKs only); active/passive with `drops`/`dups`, simultaneous open with `sim_drops`/`sim_dups`
+    let (drops, dups) = (get("drops", 1) as u32, get("dups", 1) as u32);
+    let (sim_drops, sim_dups) = (get("sim_drops", 0) as u32, get("sim_dups", 0) as u32);
+    let sim = get("sim", 1) == 1;
+    let ticks = get("ticks", 2) as u32;
+    let limit = get("limit", 2_000_000);
+    let print_every = get("print_every", 50);
+    // sampled part: the same action space with data queued on both sides, random choices
+    let samples = get("samples", 500);
     let mut total: u64 = 0;
     let mut null = Out::null();
     null.max_failures = 40;
-    for (vi, (simultaneous, data)) in [(false, false), (false, true), (true, false), (true, true)].into_iter().enumerate() {
-        let cfg = EnumCfg { simultaneous, data, max_drops: drops, max_dups: dups, max_ticks: ticks };
+    let mut exhaustive = vec![(false, drops, dups)];
+    if sim {
+        exhaustive.push((true, sim_drops, sim_dups));
+    }
+    for (vi, (simultaneous, d, u)) in exhaustive.into_iter().enumerate() {
+        let cfg = EnumCfg { simultaneous, data: false, max_drops: d, max_dups: u, max_ticks: ticks };
         let mut path: Vec<usize> = vec![];
         let mut n: u64 = 0;
         loop {
             let printed = n % print_every == 0;
             let o: &mut Out = if printed { &mut *out } else { &mut null };
             o.begin_case(total);
-            let taken = enum_schedule(&cfg, &path, o);
+            let taken = enum_schedule(&cfg, &path, None, o);
             o.end_case();
             n += 1;
             total += 1;
@@ -882,16 +895,30 @@ fn run_enum(args: &Args, out: &mut Out) {
             match next {
                 Some(p) if n < limit => path = p,
                 Some(_) => {
-                    out.notes.push(format!("variant {} (simultaneous={} data={}): enumeration stopped at the limit of {} schedules (NOT exhaustive)", vi, simultaneous, data, limit));
+                    out.notes.push(format!("exhaustive variant {} (simultaneous={}): enumeration stopped at the limit of {} schedules (NOT exhaustive)", vi, simultaneous, limit));
                     break;
                 }
                 None => {
-                    out.notes.push(format!("variant {} (simultaneous={} data={}): all {} schedules with <= {} drops, <= {} dups, <= {} RTO expirations enumerated", vi, simultaneous, data, n, drops, dups, ticks));
+                    out.notes.push(format!("exhaustive variant {} (simultaneous={}, no data): ALL {} schedules with <= {} drops, <= {} duplicates, <= {} RTO expirations enumerated", vi, simultaneous, n, d, u, ticks));
                     break;
                 }
             }
         }
-        out.count_n(&format!("enum.variant{}.schedules", vi), n);
+        out.count_n(&format!("enum.exhaustive{}.schedules", vi), n);
+    }
+    let mut rng = Rng::new(args.seed ^ 0xe03);
+    for (vi, (simultaneous, data)) in [(false, false), (true, false), (false, true), (true, true)].into_iter().enumerate() {
+        let cfg = EnumCfg { simultaneous, data, max_drops: 2, max_dups: 2, max_ticks: ticks };
+        for n in 0..samples {
+            let printed = n % print_every.max(1) == 0;
+            let o: &mut Out = if printed { &mut *out } else { &mut null };
+            o.begin_case(total);
+            let mut r = rng.fork();
+            enum_schedule(&cfg, &[], Some(&mut r), o);
+            o.end_case();
+            total += 1;
+        }
+        out.count_n(&format!("enum.sampled{}.schedules", vi), samples);
     }
     // move what the unprinted schedules found into the main record
     out.evaluations += null.evaluations;
